@@ -1045,6 +1045,14 @@ def r123(ctx: Ctx) -> RuleReport:
     v = stores[0].value
     if isinstance(v, ast.Name):
         v = _loop_comprehension(ctx, gi, v.id) or v
+    # list(map(helper, triples)) reads as [helper(t) for t in triples]
+    inner_ = v.args[0] if isinstance(v, ast.Call) and norm(v.func) in ('list', 'tuple') and len(v.args) == 1 else v
+    if isinstance(inner_, ast.Call) and norm(inner_.func) == 'map' and len(inner_.args) == 2 and isinstance(inner_.args[0], ast.Name):
+        t_ = ast.Name(id='_t', ctx=ast.Load())
+        v = ast.ListComp(elt=ast.Call(func=inner_.args[0], args=[t_], keywords=[]),
+                         generators=[ast.comprehension(target=ast.Name(id='_t', ctx=ast.Store()), iter=inner_.args[1], ifs=[], is_async=0)])
+        ast.copy_location(v, stores[0].value)
+        ast.fix_missing_locations(v)
     key = f'{gi.fq}: every stored triple is (source, _ensure_colon(role), target)'
     if not (isinstance(v, (ast.ListComp, ast.GeneratorExp)) or (isinstance(v, ast.Call) and norm(v.func) == 'list' and v.args and isinstance(v.args[0], (ast.GeneratorExp, ast.ListComp)))):
         rep.undecided(key, gi.loc(stores[0]), norm(v)[:60])
